@@ -335,4 +335,168 @@ theorem preThreadChange_err {e : Emu} {ti : Nat} {t : Thread} (ht : e.threads[ti
   simp only [ht, hok]; rfl
 
 
+/-! ### affinity: cpu_migrate_thread + thread_migrate_cpu -/
+
+theorem cpuAddThread_threads {e e' : Emu} {ci ti : Nat} (h : cpuAddThread e ci ti = .ok e') :
+    e'.threads = e.threads := by
+  unfold cpuAddThread at h
+  cases hc : e.cpus[ci]? with
+  | none => simp [hc] at h
+  | some c =>
+    simp only [hc] at h
+    by_cases hin : c.threads.contains ti = true
+    · simp only [hin, if_true] at h; cases h
+    · simp only [hin] at h
+      cases hu : cpuUpdate e.threads { c with threads := c.threads ++ [ti] } with
+      | error err => simp only [hu] at h; cases h
+      | ok c' =>
+        simp only [hu] at h
+        have : e.setCpu c' = e' := by injection h
+        rw [← this]; rfl
+
+theorem cpuRemoveThread_threads {e e' : Emu} {ci ti : Nat} (h : cpuRemoveThread e ci ti = .ok e') :
+    e'.threads = e.threads := by
+  unfold cpuRemoveThread at h
+  cases hc : e.cpus[ci]? with
+  | none => simp [hc] at h
+  | some c =>
+    simp only [hc] at h
+    by_cases hin : (!c.threads.contains ti) = true
+    · simp only [hin, if_true] at h; cases h
+    · simp only [hin] at h
+      cases hu : cpuUpdate e.threads { c with threads := c.threads.erase ti } with
+      | error err => simp only [hu] at h; cases h
+      | ok c' =>
+        simp only [hu] at h
+        have : e.setCpu c' = e' := by injection h
+        rw [← this]; rfl
+
+/-- The implementation (and the model) reject a migration whose target is the thread's
+    current CPU: when both `cpu_update`s go through, `thread_migrate_cpu` writes the value the
+    affinity channel already has. -/
+theorem migrate_same_cpu_err {e : Emu} (h : WF e) {ti : Nat} {t : Thread} (ht : e.threads[ti]? = some t)
+    {ci : Nat} (hcpu : t.cpu = some ci) : ∃ err, migrate e ti ci ci = .error err := by
+  have hth := h.th ti t ht
+  unfold migrate
+  cases h1 : cpuRemoveThread e ci ti with
+  | error err => exact ⟨err, rfl⟩
+  | ok e1 =>
+    simp only [ok_bind]
+    cases h2 : cpuAddThread e1 ci ti with
+    | error err => exact ⟨err, rfl⟩
+    | ok e2 =>
+      have hths : e2.threads[ti]? = some t := by
+        rw [cpuAddThread_threads h2, cpuRemoveThread_threads h1]; exact ht
+      refine ⟨.chanDup, ?_⟩
+      simp only [ok_bind, hths]
+      rw [Thread.migrateCpu_eq hth.chCpu, hcpu]
+      simp
+      rfl
+
+/-- the emulator after thread `ti` (old value `t`) moved from CPU `fr` (old `cf`) to `to` (old `ct`) -/
+def Emu.migrated (e : Emu) (ti : Nat) (t : Thread) (fr to : Nat) (cf ct : Cpu) : Emu :=
+  { e with
+    threads := e.threads.set ti (t.withCpu (some to)),
+    cpus := (e.cpus.set fr (({ cf with threads := cf.threads.erase ti } : Cpu).withVals
+               (boundOf e.threads (cf.threads.erase ti)))).set to
+            (({ ct with threads := ct.threads ++ [ti] } : Cpu).withVals (boundOf e.threads (ct.threads ++ [ti]))) }
+
+theorem migrate_eq {e : Emu} (h : WF e) {ti : Nat} {t : Thread} (ht : e.threads[ti]? = some t)
+    {fr to : Nat} {cf ct : Cpu} (hcpu : t.cpu = some fr) (hne : fr ≠ to)
+    (hcf : e.cpus[fr]? = some cf) (hct : e.cpus[to]? = some ct) :
+    migrate e ti fr to =
+      if overGuard e.threads (cf.threads.erase ti) cf.virt then .error .oversub
+      else if overGuard e.threads (ct.threads ++ [ti]) ct.virt then .error .oversub
+      else .ok (e.migrated ti t fr to cf ct) := by
+  have hth := h.th ti t ht
+  have hpf := h.cpu fr cf hcf
+  have hpt := h.cpu to ct hct
+  have hin : cf.threads.contains ti = true := by
+    have := hpf.mem.mem_of ht hcpu
+    simpa using this
+  have hnotin : ct.threads.contains ti = false := by
+    have := hpt.mem.not_mem ht (by rw [hcpu]; intro h'; exact hne (Option.some.inj h'))
+    simpa using this
+  unfold migrate
+  rw [cpuRemoveThread_eq hcf hpf.gidx hpf.vals.chans ti]
+  simp only [hin, Bool.not_true, Bool.false_eq_true, if_false]
+  by_cases ho1 : overGuard e.threads (cf.threads.erase ti) cf.virt = true
+  · rw [if_pos ho1, if_pos ho1]; rfl
+  · rw [if_neg ho1, if_neg ho1]
+    simp only [ok_bind]
+    have hct1 : (e.updCpu fr cf (cf.threads.erase ti)).cpus[to]? = some ct := by
+      show (e.cpus.set fr _)[to]? = some ct
+      rw [List.getElem?_set_ne hne]; exact hct
+    rw [cpuAddThread_eq (e := e.updCpu fr cf (cf.threads.erase ti)) hct1 hpt.gidx hpt.vals.chans ti]
+    simp only [hnotin, Bool.false_eq_true, if_false]
+    show (if overGuard e.threads (ct.threads ++ [ti]) ct.virt = true then _ else _) >>= _ = _
+    by_cases ho2 : overGuard e.threads (ct.threads ++ [ti]) ct.virt = true
+    · rw [if_pos ho2, if_pos ho2]; rfl
+    · rw [if_neg ho2, if_neg ho2]
+      simp only [ok_bind]
+      have hths : ((e.updCpu fr cf (cf.threads.erase ti)).updCpu to ct (ct.threads ++ [ti])).threads[ti]? = some t := ht
+      simp only [hths]
+      have hm : t.migrateCpu to = .ok (t.withCpu (some to)) := by
+        rw [Thread.migrateCpu_eq hth.chCpu, hcpu]
+        have : ¬ (some fr = some to) := fun h' => hne (Option.some.inj h')
+        simp only [this, Option.isNone_some, Bool.false_eq_true, if_false]
+      simp only [hm, ok_bind]
+      show Except.ok _ = Except.ok _
+      congr 1
+      rw [Emu.setThread_eq _ (show (t.withCpu (some to)).gindex = ti from hth.gidx)]
+      rfl
+
+theorem key_agree_set {ths : List Thread} {ti : Nat} {t t' : Thread} (ht : ths[ti]? = some t)
+    (hk : t'.key = t.key) (i : Nat) :
+    (ths[i]?).map Thread.key = ((ths.set ti t')[i]?).map Thread.key := by
+  by_cases hi : ti = i
+  · subst hi
+    rw [List.getElem?_set_self (lt_of_getElem? ht), ht]
+    simp [hk]
+  · rw [List.getElem?_set_ne hi]
+
+theorem ThreadOK.withCpu_flush {n g : Nat} {t : Thread} (h : ThreadOK n g t) {fr to : Nat}
+    (hcpu : t.cpu = some fr) (hlt : to < n) : ThreadOK n g (t.withCpu (some to)).flush :=
+  { gidx := h.gidx
+    chState := h.chState.flush
+    chTid := h.chTid.flush
+    chCpu := h.chCpu.setv_flush _
+    cpuIff := by
+      have := h.cpuIff
+      rw [hcpu] at this
+      show some to = none ↔ (t.state = .unknown ∨ t.state = .dead)
+      simpa using this
+    cpuLt := by
+      intro k hk
+      have : some to = some k := hk
+      cases this; exact hlt
+    inCpu := h.inCpu }
+
+theorem wf_migrate {e : Emu} (h : WF e) {ti : Nat} {t : Thread} (ht : e.threads[ti]? = some t)
+    {fr to : Nat} {cf ct : Cpu} (hcpu : t.cpu = some fr) (hne : fr ≠ to)
+    (hcf : e.cpus[fr]? = some cf) (hct : e.cpus[to]? = some ct)
+    (hg1 : overGuard e.threads (cf.threads.erase ti) cf.virt = false)
+    (hg2 : overGuard e.threads (ct.threads ++ [ti]) ct.virt = false) :
+    WF (e.migrated ti t fr to cf ct).flushAll := by
+  have hth := h.th ti t ht
+  have hpf := h.cpu fr cf hcf
+  have hpt := h.cpu to ct hct
+  refine WF.step h ht (t.withCpu (some to)) _ (by rw [List.length_set, List.length_set])
+    (hth.withCpu_flush hcpu (lt_of_getElem? hct)) ?_
+  intro g c' hc'
+  rcases cpus_set_cases hc' with ⟨rfl, rfl⟩ | ⟨hne2, hold⟩
+  · refine ⟨ct, hct, CpuStep.update (ct.threads ++ [ti]) e.threads (fun i _ => key_agree_set (t' := t.withCpu (some g)) ht rfl i)
+      (hpt.mem.set_add ht (by rw [hcpu]; intro h'; exact hne (Option.some.inj h')) rfl)
+      (overGuard_false hg2)⟩
+  · rcases cpus_set_cases hold with ⟨rfl, rfl⟩ | ⟨hne1, hold1⟩
+    · refine ⟨cf, hcf, CpuStep.update (cf.threads.erase ti) e.threads (fun i _ => key_agree_set (t' := t.withCpu (some to)) ht rfl i)
+        (hpf.mem.set_remove ht ?_) (overGuard_false hg1)⟩
+      show some to ≠ some g
+      intro h'; exact hne2 (Option.some.inj h').symm
+    · refine ⟨c', hold1, CpuStep.keep ?_ ?_⟩
+      · rw [hcpu]; intro h'; exact hne1 (Option.some.inj h').symm
+      · show some to ≠ some g
+        intro h'; exact hne2 (Option.some.inj h').symm
+
+
 end Ovni.Emu
